@@ -396,6 +396,71 @@ def run(ctx):
         except Exception as ex:
             ctx.violation("facet matrix comparison raised " + exc_kind(ex), dict(descr, err=repr(ex)),
                           {"what": "raise-facet-matrices", "element": ename})
+    # -------- (2c) hexahedra whose faces are PLANAR but not parallelograms (frusta: the surface Jacobian varies over
+    # the face although the face is flat): facet functionals of polynomials against an independent Gauss rule on
+    # the planar quadrilateral; and integration orders beyond the simplex tables must be refused (or be exact)
+    try:
+        import skfem
+        from numpy.polynomial.legendre import leggauss
+        gx, gw = leggauss(8)
+        gx, gw = (gx + 1) / 2, gw / 2
+        for rep in range(ctx.scale(6, 40)):
+            nz = rng.randint(1, 2)
+            zs = [0.0] + sorted(rng.sample([0.5, 1.0, 1.5, 2.0], nz))
+            sc = [1.0] + [rng.choice([0.5, 0.75, 1.25]) for _ in range(nz)]
+            cx, cy = rng.randint(-2, 2) / 8, rng.randint(-2, 2) / 8
+            base = skfem.MeshHex1.init_tensor(np.array([0., 1.]), np.array([0., 1.]), np.array(zs))
+            pp = base.p.copy()
+            for j in range(pp.shape[1]):
+                k = zs.index(float(pp[2, j]))
+                pp[0, j] = (pp[0, j] - 0.5) * sc[k] + 0.5 + cx * pp[2, j]
+                pp[1, j] = (pp[1, j] - 0.5) * sc[k] + 0.5 + cy * pp[2, j]
+            mh = skfem.MeshHex1(pp, base.t)
+            deg = rng.randint(0, 2)
+            pl = exact.rand_poly(rng, 3, deg)
+            fpl = exact.poly_callable(pl)
+            fb = FacetBasis(mh, skfem.ElementHex1(), intorder=deg + 4)
+            vals = Functional(lambda w: fpl(w.x)).elemental(fb)
+            ctx.case({"frustum": zs, "scales": sc, "shift": [cx, cy], "poly": repr(pl)}, nontrivial=True)
+            ctx.count("planar-non-parallelogram-hex-faces")
+            for q, f in enumerate(fb.find):
+                V = mh.p[:, mh.facets[:, f]]                                    # 3 x 4, cyclic
+                tot = 0.0
+                for a, wa in zip(gx, gw):
+                    for b_, wb in zip(gx, gw):
+                        N = np.array([(1 - a) * (1 - b_), a * (1 - b_), a * b_, (1 - a) * b_])
+                        dNa = np.array([-(1 - b_), (1 - b_), b_, -b_])
+                        dNb = np.array([-(1 - a), -a, a, (1 - a)])
+                        x = V @ N
+                        tot += wa * wb * float(np.linalg.norm(np.cross(V @ dNa, V @ dNb))) * float(fpl(x[:, None])[0])
+                if abs(vals[q] - tot) > 1e-11 * max(1.0, abs(tot)):
+                    ctx.violation("functional over a planar, non-parallelogram face of a hexahedron differs from the "
+                                  "integral over that face", {"mesh": meshes.mesh_descr(mh), "facet": int(f),
+                                                              "poly": repr(pl), "got": float(vals[q]), "want": tot},
+                                  {"what": "functional-facets", "cls": "hex-frustum"})
+                    break
+        for kind_, cls_, el_, orders in (("tri", skfem.MeshTri1, skfem.ElementTriP1, (20, 21, 25)),
+                                        ("tet", skfem.MeshTet1, skfem.ElementTetP1, (9, 10, 12)),
+                                        ("wedge", None, None, ())):
+            if cls_ is None:
+                continue
+            mm = cls_()
+            for o in orders:
+                ctx.count("order-beyond-the-tables")
+                try:
+                    bb = Basis(mm, el_(), intorder=o)
+                except NotImplementedError:
+                    continue
+                fz = (lambda w, o=o: w.x[-1] ** o)
+                got = Functional(fz).assemble(bb)
+                want = 1.0 / (o + 1) if True else None            # int over the unit square / cube of z^o (y^o)
+                if abs(got - want) > 1e-12:
+                    ctx.violation("an integration order beyond the quadrature tables is served by a rule that is not "
+                                  "exact for that order", {"cell": kind_, "intorder": o, "monomial": "last coordinate ^ order",
+                                                           "got": float(got), "want": want},
+                                  {"what": "order-beyond-tables", "cls": kind_})
+    except Exception as ex:
+        ctx.violation("frustum / order checks raised " + exc_kind(ex), {"err": repr(ex)}, {"what": "raise-matrices"})
     # -------- (3) mass matrix of a partition-of-unity element sums to the measure
     for it in range(ctx.scale(100, 500)):
         if ctx.time_left(0.97) < 0:
